@@ -1,5 +1,5 @@
 (* C11 -- production names rename glyphs and change nothing else. *)
-From U2F Require Import Base.Prelude Generated.Constants Order.ProdNames Order.ProdNamesProofs.
+From U2F Require Import Base.Prelude Generated.Constants Order.ProdNames Order.ProdNamesProofs Order.Agl Order.AglProofs.
 Open Scope Z_scope.
 
 (* final names are unique: one fresh name per glyph of the glyph set, in glyph order *)
@@ -43,3 +43,31 @@ Example C11_examples :
     = [117;110;105;48;48;54;54;48;48;54;57].
 Proof. exact prod_name_examples. Qed.
 Print Assumptions C11_examples.
+
+(* ---- generated names read back (Adobe glyph-naming rules; Order/Agl.v) ---- *)
+(* "%04X" printing and parsing are inverse: n printed digits parse to the value *)
+Theorem C11_hex_roundtrip : forall n v, 0 <= v < 16 ^ Z.of_nat n -> hex_val (hex_n n v) = Some v.
+Proof. exact hex_val_hex_n. Qed.
+Print Assumptions C11_hex_roundtrip.
+
+(* the generated name of every BMP code point decodes to that code point ... *)
+Theorem C11_uni_name_decodes_bmp : forall u, 0 <= u <= 65535 -> agl_component (uni_name u) = Some [u].
+Proof. exact uni_name_decodes_bmp. Qed.
+Print Assumptions C11_uni_name_decodes_bmp.
+
+(* ... so does the one of every supplementary code point ("u" + 5 or 6 digits) ... *)
+Theorem C11_uni_name_decodes_supplementary : forall u, 65535 < u <= 1114111 -> agl_component (uni_name u) = Some [u].
+Proof. exact uni_name_decodes_supplementary. Qed.
+Print Assumptions C11_uni_name_decodes_supplementary.
+
+(* ... and a ligature name "uni" + four digits per part decodes to the sequence of its parts' code points *)
+Theorem C11_ligature_name_decodes : forall vs,
+  Forall (fun v => 0 <= v <= 65535) vs -> agl_component (UNI ++ flat_map (hex_n 4) vs) = Some vs.
+Proof. exact uni_ligature_decodes. Qed.
+Print Assumptions C11_ligature_name_decodes.
+
+(* hence: the name generated for any encoded glyph (no lib-supplied name) reads back as its code point *)
+Theorem C11_generated_name_of_encoded_glyph_decodes : forall fuel gs name u,
+  uni_of gs name = Some u -> 0 <= u <= 1114111 -> agl_component (prod_name fuel gs name) = Some [u].
+Proof. exact prod_name_encoded_decodes. Qed.
+Print Assumptions C11_generated_name_of_encoded_glyph_decodes.
